@@ -42,6 +42,18 @@ Theorem C17_no_man_in_the_middle : forall (dh : N -> N -> N),
 Proof. exact no_man_in_the_middle. Qed.
 Print Assumptions C17_no_man_in_the_middle.
 
+(* No handshake ends with the node's OWN identity as the authenticated peer.  Both sides sign the same, direction-less challenge,
+   so an endpoint that holds no key at all can send the node's own identity proof and signed meta straight back; that reflected
+   hello is refused (before the repair recorded in KNOWN_FINDINGS.txt it was accepted: C17_old_reflection_accepted). *)
+Theorem C17_accepted_peer_is_another_identity : forall (dh : N -> N -> N) (b : party) (h : hello),
+  accepts dh b h = true -> h_signer h <> pa_id b.
+Proof. exact accepted_peer_is_another_identity. Qed.
+Theorem C17_reflection_refused : forall (dh : N -> N -> N) (b : party) (e : N), accepts dh b (reflected dh b e) = false.
+Proof. exact reflection_refused. Qed.
+Print Assumptions C17_reflection_refused.
+Theorem C17_old_reflection_accepted : forall (dh : N -> N -> N) (b : party) (e : N), accepts_old dh b (reflected dh b e) = true.
+Proof. exact old_reflection_accepted. Qed.
+
 Example C17_nonvacuous :
   read_all 4 1 (mkRd 0 []) (write_all 4 1 0 [[1;2;3;4;5]%N; []; [6]%N]) [3; 3; 1; 5]%nat = ([1;2;3;4;5;6]%N, true) /\
   snd (read_all 4 1 (mkRd 0 []) (apply_fault (Swap 0) (write_all 4 1 0 [[1;2;3;4;5]%N; [6]%N])) [9; 9; 9]%nat) = false.
